@@ -145,7 +145,6 @@ func (se *subscriptionEntry) Listen(conn net.Conn) {
 		se.Lock()
 		defer se.Unlock()
 		close(se.queryerCloseCh)
-		close(se.respCh)
 		se.isClosed = true
 	}()
 
